@@ -232,7 +232,7 @@ func svgGrammarValue(r *rand.Rand, attr string) string {
 
 var htmlAttrs = []string{"colspan", "rowspan", "span", "start", "value", "size", "width", "height", "align", "valign", "border", "cellspacing", "cellpadding", "bgcolor", "color", "face", "rows", "cols", "type", "hspace", "vspace", "dir", "lang", "href", "src", "style", "id", "class", "max", "min", "reversed", "background", "bordercolor", "text", "link", "nowrap", "hidden", "rel", "media", "content", "http-equiv", "name"}
 
-var attrFrags = []string{"0", "1", "2", "7", "-1", "1000", "65534", "65535", "65536", "99999999999999999999", "1.5", "1e3", "50%", "*", "2*", "x", "", " ", " 2 ", "+2", "-0", "0x10", "#f00", "#ff", "red", "bogus", "left", "center", "justify", "char", "a", "A", "i", "I", "1", "disc", "circle", "rtl", "auto", "en", "fr", "zz-ZZ", "#a1", "#", "%", "%zz", "%00", "http://[::1", "data:,x", "data:image/png;base64,@@@", "data:;base64,", "data:text/plain;charset=bogus,%ff", "mem://doc/pic.svg", "javascript:x", "//x", "../..", "\\", "color: red", "width: 1e9px", "a b c", "stylesheet", "attachment", "print", "screen and (", "refresh", "\x00", "\u00a0", "٣", "\t", "\n", "  ", "\u3000", " \u00a0 ", "+", "-", "+ 2", "- 2", ".", ".5", "5.", "e", "1e", ",", ";", "1,2", "1 2", "٣٣", "１", "0 ", " 0", "00", "-00", "2147483647", "2147483648", "-2147483649", "4294967296", "1e400", "NaN", "inf", "#", "#12345", "#1234567", "rgb(", "url(", "'", "<"}
+var attrFrags = []string{"0", "1", "2", "7", "-1", "1000", "65534", "65535", "65536", "99999999999999999999", "1.5", "1e3", "50%", "*", "2*", "x", "", " ", " 2 ", "+2", "-0", "0x10", "#f00", "#ff", "red", "bogus", "left", "center", "justify", "char", "a", "A", "i", "I", "1", "disc", "circle", "rtl", "auto", "en", "fr", "zz-ZZ", "#a1", "#", "%", "%zz", "%00", "http://[::1", "data:,x", "data:image/png;base64,@@@", "data:;base64,", "data:text/plain;charset=bogus,%ff", "mem://doc/pic.svg", "javascript:x", "//x", "../..", "\\", "color: red", "width: 1e9px", "a b c", "stylesheet", "attachment", "print", "screen and (", "refresh", "\x00", "\u00a0", "٣", "\t", "\n", "  ", "\u3000", " \u00a0 ", "+", "-", "+ 2", "- 2", ".", ".5", "5.", "e", "1e", ",", ";", "1,2", "1 2", "٣٣", "１", "0 ", " 0", "00", "-00", "2147483647", "2147483648", "-2147483649", "4294967296", "1e400", "NaN", "inf", "#", "#12345", "#1234567", "rgb(", "url(", "'", "<", "fr-0", "fr-a-b", "fr-x", "en-x-a", "a-b", "fr-a-bc", "zh-Hant-TW", "fr_CA", "-fr", "fr-", "fr--CA", "abcdefghi", "fr-abcdefghi"}
 
 func counts(tier string) (css, sel, decl, sheet, svg, url, attr, counter, exh int) {
 	exh = gen.CountStrings(len(gen.Alphabet14), 3) // exhaustive short css strings, length <= 3 (quick)
